@@ -37,22 +37,27 @@ THEOREMS = [
     "Sys.C01.roundtrip_lines", "Sys.C01.JsonView.codec_ok", "Sys.C01.roundtrip_file",
     "Sys.C01.extracted_fields", "Sys.Emit.extOf_nearest",
     "Sys.execB_vars", "Sys.Emit.execX_emits", "Sys.Emit.execX_top", "Sys.C01.explicit_node", "Sys.C01.explicit_same_as_with",
+    "Sys.C01.handle_same_as_with",
 ]
 RULE = ("structured logging programs from harness/sysgen.py (profile: no explicit handles / remote ids, no failing serializers or "
         "destinations, destinations [recording, binary FileDestination, text FileDestination] registered first, typed actions and "
         "messages with succeeding serializers, tasks started inside actions, context-less messages, try/except with write_traceback, "
         "add_success_fields, exceptions of generated classes incl. BaseException subclasses and raising __str__); batch A = no exception "
         "extractors, batch B = non-raising exception extractors registered on generated and builtin classes (resolved along the MRO; "
-        "30% return a key eliot sets itself: reason / exception / traceback), batch E = batch B's programs with 65% of the with-blocks whose "
-        "body ends normally rewritten into the explicit spelling `x = start_action(..)`; one or two `with x.context():` / `x.run(..)` "
-        "segments; `x.finish()` (60%) or `x.finish(exc)` (40%) - all three inside the theorems' fragment; every program is parsed in emission order, reversed and 2 (quick) / 4 (thorough) seeded shuffles; non-trivial = depth "
+        "30% return a key eliot sets itself: reason / exception / traceback), batch E = batch B's programs with 70% of the with-blocks rewritten to go through a handle: "
+        "`x = start_action(..)`; one or two `with x.context():` / `x.run(..)` segments; `x.finish()` (60%) or `x.finish(exc)` (40%) when the "
+        "body ends normally, else `x = start_action(..)`; `with x: body`; leading messages / add_success_fields of the body may go "
+        "through the handle (`x.log`, `Message.log(action=x)`, `x.add_success_fields`), extra `x.log` messages between segments - all three "
+        "batches inside the theorems' fragment (a Python mirror of Block.structured counts every case: in_theorems_fragment); every program is parsed in emission order, reversed and 2 (quick) / 4 (thorough) seeded shuffles; non-trivial = depth "
         ">= 2, >= 6 messages, >= 1 failed action and (typed field or task inside an action); distinct by canonical hash of the program")
 TRUSTED = ["uuid4() does not collide (a counter in the harness, as in the model)", "time.time() is replaced by a counter (timestamps never compared otherwise)",
            "json.loads (CPython) reads what orjson wrote (C10 states the codec laws on the model; here the real pair is exercised on every line)",
            "the OS returns the bytes that were written and flushed to a regular file"]
 ASSUMPTIONS = ["structured programs: with-blocks, messages, add_success_fields on the current action, raise/try/except, write_traceback in handlers, "
-               "and the explicit spelling of an action (x = start_action(..); context()/run segments whose bodies end normally and do not rebind x; "
-               "x.finish(..); adjacent in one block - a segment body that raises leaves the action unfinished: excluded by the decidable `wf`); "
+               "and the explicit spelling of an action (x = start_action(..); context()/run segments whose bodies end normally and do not rebind x, "
+               "x.log(..) and x.add_success_fields(..) between them; x.finish(..) or `with x: body`; adjacent in one block - a segment body that "
+               "raises leaves the action unfinished: excluded by the decidable `wf`; x.log while a child of x is open is outside: emission "
+               "order would no longer be depth-first); "
                "other uses of handles and serialize_task_id+continue_task are covered by C02/C04/C06, not here",
                "registered destinations never raise (a raising one adds eliot:destination_failure messages to the current action: C08)",
                "field serializers do not raise and no declared field is missing (else eliot:serialization_failure replaces the message: C13)",
@@ -155,10 +160,19 @@ def stmt_raises(s):
 
 
 def explicit_spelling(case, rng, n_exc):
-    """Rewrite `with start_action(..): body` blocks whose body ends normally into the explicit spelling
-    `x = start_action(..)`; one or two segments `with x.context(): ..` / `x.run(lambda: ..)` holding the body;
-    `x.finish()` or `x.finish(exc)` - all adjacent, `x` fresh.  (`finish(exc)` does not raise: what follows runs.)"""
+    """Rewrite `with start_action(..): body` blocks into spellings that go through a handle, `x` fresh, all adjacent:
+    (a) body ends normally: `x = start_action(..)`; one or two segments `with x.context(): ..` / `x.run(lambda: ..)` holding
+        the body; `x.finish()` or `x.finish(exc)` (`finish(exc)` does not raise: what follows runs);
+    (b) any body: `x = start_action(..)`; `with x: body`;
+    in both, messages the body starts with may be logged through the handle before the first segment (`x.log(..)` /
+    `Message.log(action=x)`), `add_success_fields` the body starts with may go through the handle, and in (a) a message
+    may be logged through the handle between / after the segments."""
     counter = [0]
+    extra = [0]
+
+    def handle_msg():
+        extra[0] += 1
+        return dict(op="logTo", x=None, ms=dict(mtype="via-handle:%d" % extra[0], fields=[["hk", {"n": extra[0]}]], sers=None))
 
     def walk(block):
         out = []
@@ -167,21 +181,79 @@ def explicit_spelling(case, rng, n_exc):
             for k in ("body", "handler"):
                 if k in s:
                     s[k] = walk(s[k])
-            if s["op"] == "with" and not block_raises(s["body"]) and rng.random() < 0.65:
-                x = counter[0]
-                counter[0] += 1
-                body = s["body"]
-                out.append(dict(op="startAs", x=x, task=s["task"], spec=s["spec"]))
-                cut = rng.randint(0, len(body)) if rng.random() < 0.35 else None
+            r = rng.random()
+            if s["op"] != "with" or r < 0.3:
+                out.append(s)
+                continue
+            x = counter[0]
+            counter[0] += 1
+            body = list(s["body"])
+            out.append(dict(op="startAs", x=x, task=s["task"], spec=s["spec"]))
+            # what the body starts with may go through the handle instead
+            while body and body[0]["op"] in ("log", "addSuccess") and rng.random() < 0.5:
+                h = body.pop(0)
+                out.append(dict(op="logTo", x=x, ms=h["ms"]) if h["op"] == "log" else dict(h, x=x))
+            if r < 0.7 and not block_raises(body):
+                # a cut must not separate an (already rewritten) inner `y = start_action(..)` from its segments / finish
+                safe, opened = [0], False
+                for i, t in enumerate(body):
+                    opened = t["op"] == "startAs" or (opened and t["op"] not in ("finish", "withHandle"))
+                    if not opened:
+                        safe.append(i + 1)
+                cut = rng.choice(safe) if rng.random() < 0.35 else None
                 parts = [body] if cut is None else [body[:cut], body[cut:]]
                 for part in parts:
                     out.append(dict(op=rng.choice(["inContext", "runIn"]), x=x, body=part))
+                    if rng.random() < 0.25:
+                        out.append(dict(handle_msg(), x=x))
                 out.append(dict(op="finish", x=x, exc=(rng.randrange(n_exc) if n_exc and rng.random() < 0.4 else None)))
             else:
-                out.append(s)
+                out.append(dict(op="withHandle", x=x, body=body))
         return out
 
     return dict(case, prog=walk(case["prog"]))
+
+
+# ---- the theorems' fragment, syntactically (mirror of Block.structured / Block.structuredX in Proofs/SysEmit.lean) ----
+
+def binds(block, x):
+    return any((s["op"] == "startAs" and s["x"] == x) or binds(s.get("body", []), x) or binds(s.get("handler", []), x) for s in block)
+
+
+def structured(block, in_handler, in_action):
+    for i, s in enumerate(block):
+        op = s["op"]
+        if op == "startAs":
+            return structured_open(block[i + 1:], in_handler, in_action, s["x"])
+        if op == "with":
+            ok = structured(s["body"], in_handler, True)
+        elif op == "try":
+            ok = structured(s["body"], in_handler, in_action) and structured(s["handler"], True, in_action)
+        elif op == "tb":
+            ok = in_handler
+        elif op == "addSuccess":
+            ok = s.get("x") is None and in_action
+        else:
+            ok = op in ("log", "raise", "probe")
+        if not ok:
+            return False
+    return True
+
+
+def structured_open(block, in_handler, in_action, x):
+    if not block or block[0].get("x") != x:
+        return False
+    s, rest = block[0], block[1:]
+    op = s["op"]
+    if op in ("inContext", "runIn"):
+        return structured(s["body"], in_handler, True) and not binds(s["body"], x) and structured_open(rest, in_handler, in_action, x)
+    if op in ("logTo", "addSuccess"):
+        return structured_open(rest, in_handler, in_action, x)
+    if op == "finish":
+        return structured(rest, in_handler, in_action)
+    if op == "withHandle":
+        return structured(s["body"], in_handler, True) and structured(rest, in_handler, in_action)
+    return False
 
 
 def gen_explicit(rng, profile):
@@ -281,6 +353,34 @@ class Oracle:
         for s in block:
             self.stmt(s)
 
+    def with_block(self, a, node, sers, body):
+        """`with a: body` on the action `a` (just created, or held in a handle) whose node is `node`."""
+        rt = self.rt
+        api(rt, "Action.__enter__", a.__enter__)
+        self.stack.append(node)
+        exc = None
+        try:
+            self.block(body)
+        except (ApiRaised, Stuck):
+            raise
+        except BaseException as e:  # noqa
+            exc = e
+        finally:
+            self.stack.pop()
+        if exc is None:
+            node["status"] = "succeeded"
+            node["end"] = self.typed(node["succ"], sers and sers["success"])
+            r = api(rt, "Action.__exit__", a.__exit__, None, None, None)
+        else:
+            node["status"] = "failed"
+            node["end"] = dict(self.extracted(exc), exception=qualname(type(exc)), reason=safe_str(exc))
+            r = api(rt, "Action.__exit__", a.__exit__, type(exc), exc, exc.__traceback__)
+        if r:
+            rt.notes.append("__exit__ swallowed the exception")
+            return
+        if exc is not None:
+            raise exc
+
     def stmt(self, s):
         import eliot
 
@@ -293,30 +393,19 @@ class Oracle:
                         status=None, end=None)
             self.attach(node, own_tree=s["task"])
             a = sysinterp._make_action2(rt, s["task"], sp)
-            api(rt, "Action.__enter__", a.__enter__)
-            self.stack.append(node)
-            exc = None
-            try:
-                self.block(s["body"])
-            except (ApiRaised, Stuck):
-                raise
-            except BaseException as e:  # noqa
-                exc = e
-            finally:
-                self.stack.pop()
-            if exc is None:
-                node["status"] = "succeeded"
-                node["end"] = self.typed(node["succ"], sers and sers["success"])
-                r = api(rt, "Action.__exit__", a.__exit__, None, None, None)
-            else:
-                node["status"] = "failed"
-                node["end"] = dict(self.extracted(exc), exception=qualname(type(exc)), reason=safe_str(exc))
-                r = api(rt, "Action.__exit__", a.__exit__, type(exc), exc, exc.__traceback__)
-            if r:
-                rt.notes.append("__exit__ swallowed the exception")
-                return
-            if exc is not None:
-                raise exc
+            self.with_block(a, node, sers, s["body"])
+        elif op == "withHandle":
+            if s["x"] not in self.handles:
+                raise Stuck()
+            self.with_block(*self.handles[s["x"]], s["body"])
+        elif op == "logTo":
+            if s["x"] not in self.handles:
+                raise Stuck()
+            a, node, _ = self.handles[s["x"]]
+            ms = s["ms"]
+            kw = rt.kwargs(ms["fields"])
+            node["children"].append(dict(kind="message", mtype=ms["mtype"], fields=self.typed(kw, ms.get("sers"))))
+            sysinterp._log_with(rt, a, ms)
         elif op == "log":
             ms = s["ms"]
             kw = rt.kwargs(ms["fields"])
@@ -340,6 +429,13 @@ class Oracle:
             self.attach(dict(kind="message", mtype="eliot:traceback",
                              fields=dict(self.extracted(e), reason=safe_str(e), exception=qualname(type(e)), traceback=("tb", type(e).__name__))))
             api(rt, "write_traceback", eliot.write_traceback, exc_info=(type(e), e, e.__traceback__))
+        elif op == "addSuccess" and s.get("x") is not None:
+            if s["x"] not in self.handles:
+                raise Stuck()
+            a, node, _ = self.handles[s["x"]]
+            kw = rt.kwargs(s["fs"])
+            node["succ"].update(kw)
+            api(rt, "add_success_fields", a.add_success_fields, **kw)
         elif op == "addSuccess":
             if not self.stack:
                 raise Stuck()
@@ -707,6 +803,8 @@ def check_cases(ctx, cases, batch):
         ctx.case(case, nontrivial=(st["depth"] >= 2 and nlines >= 6 and failed >= 1 and typed >= 1),
                  tags=["batch:" + batch, "depth:%d" % min(st["depth"], 6), "trees:%d" % min(len(trees), 6)] + ["op:" + o for o in st["ops"]],
                  sample=(st["stmts"] <= 10))
+        ctx.count("in_theorems_fragment" if case["prog"][0]["op"] == "addDests" and structured(case["prog"][1:], False, False)
+                  else "outside_theorems_fragment")
         ctx.count("messages", n=nlines)
         ctx.count("orders_parsed", n=len(orders))
         # --- tie 1: core model vs real destinations (recording, binary file, text file)
